@@ -10,6 +10,7 @@ import IxpeVerif.Model.Channels
 import IxpeVerif.Model.Hist
 import IxpeVerif.Model.Kislat
 import IxpeVerif.Model.Polarization
+import IxpeVerif.Model.Ephemeris
 /-! Dispatcher of the hand-written models for the line-protocol driver.  Integers travel in decimal. -/
 namespace Driver
 
@@ -195,6 +196,10 @@ def step (ws : List String) : String :=
   | "refused" :: rest =>
     let (c, _) := takeN rest
     if Pol.degreesRefused ((ints c).map fbits) then "1" else "0"
+  -- fold met0 nu0 nudot0 nuddot start phi0 <n> mets…  -> folded phases
+  | "fold" :: m0 :: n0 :: n1 :: n2 :: st :: p0 :: rest =>
+    let (ms, _) := takeN rest
+    showFs ((ints ms).map fun t => Eph.fold (fw m0) (fw n0) (fw n1) (fw n2) (fbits t) (fw st) (fw p0))
   | ["pikey", pi] => showInts [piKey pi.toInt!]
   | ["split", t] => let r := EvL.splitTime t.toInt!; showInts [r.1, r.2]
   | _ => "bad-op"
